@@ -2,6 +2,7 @@ import Lean.Data.Json
 import SpoxModel.Model.Subgraph
 import SpoxModel.Model.SubgraphSpec
 import SpoxModel.Model.SubgraphNested
+import SpoxModel.Model.CallForm
 import SpoxModel.Generated.SubgraphSpecs
 import SpoxModel.Generated.CallbackSites
 import SpoxModel.Generated.CallGraphData
@@ -76,6 +77,21 @@ def parseBeh (j : Json) : Except String (Nat × CbBehaviour) := do
   | "hasNonVar" => return (id, .hasNonVar n)
   | "raises" => return (id, .raises)
   | _ => throw "bad behaviour"
+
+/-- the signature of a callback form, if the request gives one -/
+def parseSig (j : Json) : Option CallForm.Sig :=
+  match j.getObjVal? "sig" with
+  | .ok sj =>
+    let nat (k : String) := (sj.getObjValAs? Nat k).toOption.getD 0
+    some ⟨nat "npos", nat "ndef", (sj.getObjValAs? Bool "varargs").toOption.getD false, nat "kwreq", nat "kwbound",
+      nat "bound"⟩
+  | .error _ => none
+
+/-- the behaviour `subgraph` sees when it calls the callback with `n` arguments -/
+def withSig (sg : Option CallForm.Sig) (n : Nat) (beh : CbBehaviour) : CbBehaviour :=
+  match sg with
+  | some s => CallForm.effective s n beh
+  | none => beh
 
 def parseStep (s : String) : Except String Step :=
   match s with
@@ -172,7 +188,9 @@ def handleDirect (d : Json) : Json :=
     let kind ← d.getObjValAs? String "types"
     let tys ← ((d.getObjValAs? (Array Json) "tys").toOption.getD #[]).toList.mapM parseTy
     let ta : TypesArg := if kind == "ok" then .ok tys else if kind == "notIterable" then .notIterable else .hasNonType
-    let (id, beh) ← parseBeh (← d.getObjVal? "cb")
+    let cbj ← d.getObjVal? "cb"
+    let (id, beh0) ← parseBeh cbj
+    let beh := withSig (parseSig cbj) tys.length beh0
     let (res, w1) := subgraphEntry ta id beh ⟨[], 0⟩
     let resJ := match res with
       | .ok g => Json.mkObj [("ok", toJson g.nResults), ("nargs", toJson g.args.length)]
@@ -202,11 +220,18 @@ def handle (req : Json) : Json :=
       return (p.1, ← parseOperand p.2))
     let ints ← (← objPairs (req.getObjValD "ints")).mapM (fun (p : String × Json) => do
       return (p.1, ← p.2.getInt?))
-    let cbl ← (← objPairs (req.getObjValD "cbs")).mapM (fun (p : String × Json) => do
-      return (p.1, ← parseBeh p.2))
+    let cbl0 ← (← objPairs (req.getObjValD "cbs")).mapM (fun (p : String × Json) => do
+      return (p.1, ← parseBeh p.2, parseSig p.2))
     let steps ← ((req.getObjValAs? (Array String) "steps").toOption.getD #[]).toList.mapM parseStep
     let fresh0 := (req.getObjValAs? Nat "fresh").toOption.getD 0
     let env : Env := ⟨lookupD [] lists, lookupD none singles, lookupD 0 ints⟩
+    -- a callback form: Python's binding of the prescribed number of arguments decides whether the body is entered
+    let nArgsOf (nm : String) : Nat :=
+      match spec.subgraphs.find? (fun (q : String × ListExpr) => q.1 == nm) with
+      | some q => match evalList env q.2 with | .ok ts => ts.length | .error _ => 0
+      | none => 0
+    let cbl : List (String × Nat × CbBehaviour) :=
+      cbl0.map (fun (p : String × (Nat × CbBehaviour) × Option CallForm.Sig) => (p.1, p.2.1.1, withSig p.2.2 (nArgsOf p.1) p.2.1.2))
     let cbs : Callbacks := lookupD (999, .notCallable) cbl
     -- `repeat`: the same constructor call made again with the very same callback objects
     let reps := (req.getObjValAs? Nat "repeat").toOption.getD 1
